@@ -52,6 +52,17 @@ func c13CheckFaultState(res *c13TARes, spec *c13TASpec, mon *c13Mon, preJ *c13J,
 		}
 	}
 	raw, err := os.ReadFile(topOuts)
+	// the record's temp sibling at the cut (writeAtomicAt: <target>.tmp)
+	if tb, terr := os.ReadFile(topOuts + ".tmp"); terr != nil {
+		res.FaultTmp = "N"
+	} else if len(tb) <= 8192 {
+		res.FaultTmp = "S" + hx(string(tb))
+	} else {
+		res.FaultTmp = fmt.Sprintf("L%d", len(tb))
+	}
+	if err == nil && len(raw) <= 8192 {
+		res.FaultRaw = "S" + hx(string(raw))
+	}
 	res.FaultOuts = string(raw)
 	if len(res.FaultOuts) > 400 {
 		res.FaultOuts = res.FaultOuts[:400] + "…"
